@@ -36,9 +36,9 @@ pub fn parse_mterm(s: &Sx) -> Option<MTerm> {
     }
 }
 
-pub(super) type MLeaf = &'static mut Matrix<i64>;
-pub(super) type MDyn = Box<dyn MatrixMut<i64>>;
-pub(super) type Ptr = *mut Matrix<i64>;
+pub type MLeaf = &'static mut Matrix<i64>;
+pub type MDyn = Box<dyn MatrixMut<i64>>;
+pub type Ptr = *mut Matrix<i64>;
 
 pub(super) fn mleaf(rows: usize, cols: usize, data: &[i64]) -> Option<(MLeaf, Ptr)> {
     let data = data.to_vec();
